@@ -21,7 +21,7 @@ def S(engine, flavour, quick, thorough, prop=None, **kw):
 
 STAGES = {
     "C01": [S("e_seq", "asu", 40000, 400000)],
-    "C02": [S("e_seq", "asu", 40000, 400000)],
+    "C02": [S("e_seq", "asu", 120000, 800000)],
     "C05": [S("e_seq", "asu", 40000, 400000), S("e_tbb", "asu", 10000, 100000)],
     "C06": [S("e_seq", "asu", 40000, 400000)],
     "C09": [S("e_seq", "asu", 40000, 400000), S("e_tbb", "asu", 15000, 150000)],
